@@ -3,6 +3,7 @@ package props
 import (
 	"fmt"
 	"go/constant"
+	"go/types"
 	"strings"
 
 	"golang.org/x/tools/go/ssa"
@@ -151,8 +152,9 @@ func runC05(c *an.Ctx) {
 	setErr := mustObj(c, "core/store/overlaydb.(*OverlayDB).SetError")
 	for _, h := range []*ssa.Function{invokeH, deployH} {
 		var ov *ssa.Parameter
+		// the block overlay: the handler's parameter of type *overlaydb.OverlayDB (whatever it is called)
 		for _, p := range h.Params {
-			if p.Name() == "overlay" {
+			if strings.HasSuffix(p.Type().String(), "overlaydb.OverlayDB") {
 				ov = p
 			}
 		}
@@ -209,7 +211,13 @@ func runC05(c *an.Ctx) {
 		var fresh ssa.Value
 		for _, k := range an.Calls(costInvalid) {
 			if k.Common().StaticCallee() == newCache {
-				if an.AccessPath(k.Common().Args[0]) != "overlay" {
+				ovName := "?"
+				for _, p := range costInvalid.Params {
+					if strings.HasSuffix(p.Type().String(), "overlaydb.OverlayDB") {
+						ovName = p.Name()
+					}
+				}
+				if an.AccessPath(k.Common().Args[0]) != ovName {
 					ok, why = false, "NewCacheDB is not built over the overlay parameter"
 				}
 				fresh = k.Value()
@@ -225,7 +233,7 @@ func runC05(c *an.Ctx) {
 				ok, why = false, "chargeCostGas is not applied to the fresh cache"
 			}
 			chargedGas = an.AccessPath(args[1])
-			if an.AccessPath(args[0]) != "address" {
+			if an.AccessPath(args[0]) != costInvalid.Params[0].Name() {
 				ok, why = false, "charged account is not the address parameter"
 			}
 		}
@@ -253,20 +261,88 @@ func runC05(c *an.Ctx) {
 	// (5) chargeCostGas
 	{
 		nativeCall := mustObj(c, "smartcontract/service/native.(*NativeService).NativeCall")
-		gen := mustFunc(c, ls+".genNativeTransferCode")
-		ok, why := false, "no NativeCall(utils.OngContractAddress, \"transfer\", genNativeTransferCode(payer, utils.GovernanceContractAddress, gas))"
-		if nativeCall != nil && gen != nil {
-			for _, k := range an.CallsTo(charge, nativeCall) {
+		ok, why := false, "no NativeCall(utils.OngContractAddress, \"transfer\", <serialized ont.TransferStates{{From: payer, To: utils.GovernanceContractAddress, Value: gas}}>)"
+		if nativeCall != nil {
+			for _, k := range an.CallsToReach(charge, nativeCall) {
 				args := argsNoRecv(k.Common())
 				m, isC := args[1].(*ssa.Const)
-				if !isC || m.Value == nil || constant.StringVal(m.Value) != "transfer" || an.AccessPath(args[0]) != "utils.OngContractAddress" {
+				if !isC || m.Value == nil || constant.StringVal(m.Value) != "transfer" || an.AccessPathIn(charge, args[0]) != "utils.OngContractAddress" {
 					continue
 				}
-				if pc, isCall := an.Origin(args[2]).(*ssa.Call); isCall && pc.Call.StaticCallee() == gen {
-					a := pc.Call.Args
-					if an.AccessPath(a[0]) == "payer" && an.AccessPath(a[1]) == "utils.GovernanceContractAddress" && an.AccessPath(a[2]) == "gas" {
-						ok = true
+				// the argument is the serialization of an ont.TransferStates (built here or in a private helper) ...
+				serialized := false
+				for _, d := range an.Deref(charge, args[2]) {
+					if pc, isCall := an.Origin(d).(*ssa.Call); isCall && pc.Call.StaticCallee() != nil && pc.Call.StaticCallee().Name() == "SerializeToBytes" && len(pc.Call.Args) == 1 {
+						// SerializeToBytes(values ...Serializable): exactly one value, the TransferStates
+						var elems []ssa.Value
+						if sl, isSl := pc.Call.Args[0].(*ssa.Slice); isSl {
+							if al, isAl := sl.X.(*ssa.Alloc); isAl {
+								for _, r := range *al.Referrers() {
+									if ia, isIA := r.(*ssa.IndexAddr); isIA {
+										for _, r2 := range *ia.Referrers() {
+											if st, isSt := r2.(*ssa.Store); isSt && st.Addr == ssa.Value(ia) {
+												elems = append(elems, st.Val)
+											}
+										}
+									}
+								}
+							}
+						}
+						if len(elems) == 1 {
+							x := elems[0]
+							if mi, isMI := x.(*ssa.MakeInterface); isMI {
+								x = mi.X
+							}
+							if strings.HasSuffix(x.Type().String(), "native/ont.TransferStates") {
+								serialized = true
+							}
+						}
 					}
+				}
+				if !serialized {
+					why = "the argument of the transfer call is not a serialized ont.TransferStates"
+					continue
+				}
+				// ... with exactly one entry {From: payer, To: governance, Value: gas}; payer and gas are
+				// chargeCostGas's first two parameters (whatever they are called)
+				want := map[string]string{"From": charge.Params[0].Name(), "To": "utils.GovernanceContractAddress", "Value": charge.Params[1].Name()}
+				seen := map[string]int{}
+				good := true
+				for _, g := range an.InlineReach(charge) {
+					for _, b := range g.Blocks {
+						for _, in := range b.Instrs {
+							st, isSt := in.(*ssa.Store)
+							if !isSt {
+								continue
+							}
+							fa, isFA := st.Addr.(*ssa.FieldAddr)
+							if !isFA || !strings.HasSuffix(fa.X.Type().String(), "native/ont.TransferState") {
+								continue
+							}
+							f := an.FieldOf(fa)
+							if f == nil {
+								continue
+							}
+							seen[f.Name()]++
+							if an.AccessPathIn(charge, st.Val) != want[f.Name()] {
+								good = false
+								why = fmt.Sprintf("the transfer entry's %s is %s, not %s", f.Name(), an.AccessPathIn(charge, st.Val), want[f.Name()])
+							}
+							if ia, isIA := fa.X.(*ssa.IndexAddr); isIA {
+								if pt, isP := ia.X.Type().Underlying().(*types.Pointer); isP {
+									if arr, isArr := pt.Elem().Underlying().(*types.Array); !isArr || arr.Len() != 1 {
+										good = false
+										why = "the fee transfer has more than one entry"
+									}
+								}
+							}
+						}
+					}
+				}
+				if good && seen["From"] == 1 && seen["To"] == 1 && seen["Value"] == 1 {
+					ok = true
+				} else if good {
+					why = fmt.Sprintf("the fee transfer entry is not written exactly once (From/To/Value stores: %d/%d/%d)", seen["From"], seen["To"], seen["Value"])
 				}
 			}
 			okRet, w := an.MustPassToSuccess(c.P, charge, callsIn(charge, nativeCall))
